@@ -466,6 +466,9 @@ struct C20 {
     /// number of matcher runs that did not terminate (their threads are leaked); after a few, matcher
     /// cases are skipped so that the run itself terminates
     kmp_hangs: u32,
+    /// histories / texts covered inside exhaustive cases (for the evidence)
+    histories: u64,
+    texts: u64,
 }
 
 /// Run `f` on a helper thread; `None` if it has not finished after `secs` seconds (the matcher is a
@@ -616,6 +619,7 @@ impl C20 {
             Err(_) => false,
         };
         if agree {
+            self.histories += m_leaves;
             return;
         }
         // Disagreement somewhere below this prefix: find the first history that fails on its own.
@@ -764,6 +768,7 @@ impl C20 {
         };
         if let (Ok(d), 3) = (&got, r.len()) {
             if *d == r[0] && *d == r[1] && r[2] == total as u64 {
+                self.texts += total as u64;
                 return;
             }
         }
@@ -1079,7 +1084,7 @@ impl Property for C20 {
          gm (bfs): breadth-first search over the distinct concrete states of the real map (visible values + canonical iter_all) for 2 keys x 2 values, nesting <= 3 (quick, first 1500 states) / <= 5 (thorough, first 40000 states), every one-op extension of every state's shortest history, iter_all + rebuild at the end; \
          gm: random histories, 1..12 keys, 2..4 values, length <= 400, nesting <= 10, unmatched end_group with probability, random split; \
          kx: every pattern over {0,1,2} of length <= 4 (quick) / <= 5 (thorough) against every text of length 8 / 12 (hence all shorter: streaming), by digest; km: random patterns (<= 8, periodic ones favoured) and texts (<= 48) over 1..3 letters; \
-         in: every sequence of length <= 5 over {\"\", a, ab, b} (quick: <= 4), random sequences with repeats, multi-byte strings; constant hasher and RandomState; serde_json rebuild; \
+         in: every sequence of length <= 6 (thorough) / <= 4 (quick) over {\"\", a, ab, b}, random sequences with repeats, multi-byte strings; constant hasher and RandomState; serde_json rebuild; \
          tg/st: T in {1,2,4,8,16,32,64} threads x N creations behind a barrier, repeated. \
          Non-trivial = gm: has an insert and a begin_group; km: pattern >= 2 and text >= pattern; in: repeats and >= 2 distinct strings; tg/st: >= 2 threads; exhaustive cases always. distinct = distinct case string."
             .into()
@@ -1243,6 +1248,13 @@ impl Property for C20 {
         out
     }
 
+    fn extra_evidence(&self) -> Option<String> {
+        Some(format!(
+            "\"histories_inside_exhaustive_cases\": {}, \"pattern_text_pairs_inside_exhaustive_cases\": {}, \"matcher_runs_that_did_not_terminate\": {}",
+            self.histories, self.texts, self.kmp_hangs
+        ))
+    }
+
     fn shrink(&self, case: &str) -> Vec<String> {
         let (cmd, rest) = case.split_once(' ').unwrap_or((case, ""));
         let mut c = vec![];
@@ -1318,5 +1330,5 @@ impl Property for C20 {
 }
 
 fn main() {
-    run(C20 { found: HashMap::new(), kmp_hangs: 0 });
+    run(C20 { found: HashMap::new(), kmp_hangs: 0, histories: 0, texts: 0 });
 }
